@@ -7,8 +7,7 @@ import LibfiveTheorems.C20
 #print axioms Libfive.C20.walk_pending
 #print axioms Libfive.C20.reset_ticks
 #print axioms Libfive.C20.reset_ticks_defect
-#print axioms Libfive.C20.reset_ticks_repaired
-#print axioms Libfive.C20.reset_ticks_le
+#print axioms Libfive.C20.reset_ticks_old_iff
 #print axioms Libfive.C20.progress_monotone
 #print axioms Libfive.C20.finish_idempotent
 #print axioms Libfive.C20.runner_exits_after_signal
